@@ -346,9 +346,15 @@ def known_defect_semantics(q):
                 return {"k": "coalesce", "args": [y, T]}
             if k == "scalar" and x["q"].get("k") == "agg" and not x["q"]["keys"] and \
                x["q"]["aggs"][0]["f"] == "count" and _corr(x["q"]):
+                # NULL instead of 0 exactly when the correlated input of the aggregate is empty
                 changed[0] = True
-                zero = {"k": "cmp", "op": "eq", "l": y, "r": {"k": "lit", "v": [0], "c": "i"}}
-                return {"k": "case", "whens": [{"c": zero, "t": {"k": "lit", "v": [], "c": "i"}}], "els": y}
+                return {"k": "case", "whens": [{"c": {"k": "exists", "q": y["q"]["c"]}, "t": y}],
+                        "els": {"k": "lit", "v": [], "c": "i"}}
+            if k == "join" and x.get("lateral") and x["jt"] in ("cross", "inner") and x["r"].get("k") == "agg" and \
+               not x["r"]["keys"] and _corr(x["r"]):
+                # a lateral ungrouped aggregate loses the outer rows whose correlated input is empty
+                changed[0] = True
+                return dict(y, l={"k": "filter", "c": y["l"], "p": {"k": "exists", "q": y["r"]["c"]}})
             return y
         if isinstance(x, list):
             return [rw(v) for v in x]
@@ -527,7 +533,8 @@ def run_tagged(prop, tier, module, consts, fam, dbs_fn, cfgs_fn, rule, extra_ite
             for c in chosen:
                 c = dict(c)
                 chunk = c.pop("_chunk", None)
-                run_.add(tag, p["q"], db, c, extra={"knobs": {"table_chunk_capacity": chunk}} if chunk else None)
+                style = c.pop("_style", None)
+                run_.add(tag, p["q"], db, c, style=style, extra={"knobs": {"table_chunk_capacity": chunk}} if chunk else None)
     if extra_items:
         extra_items(run_, queries, rng)
     run_.execute()
@@ -539,3 +546,25 @@ def run_tagged(prop, tier, module, consts, fam, dbs_fn, cfgs_fn, rule, extra_ite
     rep.cov["exhaustive"] = False
     rep.assumptions += ["sqlgen rendering (term -> SQL) is trusted", "TLC evaluates Algebra.tla correctly"]
     return rep.finish()
+
+
+# ----------------------------------------------------------------------------- replay terms of recorded findings
+def _c(i):
+    return {"k": "col", "up": 0, "i": i}
+
+
+def _cmp(op, a, b):
+    return {"k": "cmp", "op": op, "l": a, "r": b}
+
+
+def _join(jt, l, r, on, lw, rw):
+    return {"k": "join", "jt": jt, "l": l, "r": r, "on": on, "lateral": False, "lw": lw, "rw": rw}
+
+
+KF_SEMI_REORDER = _join("semi", _join("inner", {"k": "scan", "t": "B"}, {"k": "scan", "t": "S"}, _cmp("lt", _c(2), _c(3)), 2, 2),
+                        {"k": "scan", "t": "S"}, {"k": "and", "l": _cmp("eq", _c(3), _c(5)), "r": _cmp("lt", _c(2), _c(5))}, 4, 2)
+KF_LIMIT_LEFTJOIN = {"k": "limit", "n": 1, "off": 0,
+                     "c": _join("left", {"k": "scan", "t": "A"}, {"k": "scan", "t": "A"}, _cmp("eq", _c(1), _c(3)), 2, 2)}
+KF_DB = {"A": {"names": ["a", "b"], "cols": ["i", "i"], "rows": [[[0], [1]], [[1], [1]], [[1], [2]]]},
+         "B": {"names": ["a", "b"], "cols": ["i", "i"], "rows": [[[1], [0]], [[1], [1]], [[2], []]]},
+         "S": {"names": ["a", "s"], "cols": ["i", "t"], "rows": [[[0], [0]], [[1], [1]], [[2], [1]]]}}
